@@ -15,7 +15,9 @@ RULE = (
     "must decode to the UTF-8 bytes of the supplied text ('%' is data).  In both, counts of literal and of encoded '/', '&', '=', '+', ';' are "
     "compared so delimiter status cannot flip, and join must keep the base directory's segments byte-identical.  EXHAUSTIVE kernel: all 256 "
     "%XX in upper and lower case and all 128 ASCII literals x 6 component positions x 4 neighbour contexts; plus seeded random texts "
-    "(no lone surrogates) on both backends.  Signature = (entry point, component, class of the unit text, outcome)."
+    "(no lone surrogates) on both backends; SHARED phase: the same monitors while 4-6 barrier-released threads parse and build distinct escape-rich URLs "
+    "through the module-level quoters (switch interval 1 us; each thread records into its own recorder).  Signature = (entry point, component, class "
+    "of the unit text, outcome)."
 )
 ASSUMPTIONS = ["lone surrogates are excluded here (C01/C05 own them)", "'+' and space both mean space in queries; %2E counts as '.' only in the re-quoting regime", "hosts are C16's"]
 
@@ -29,6 +31,9 @@ def plan(tier, seed):
     nr = 16 if thorough else 4
     for s in range(nr):
         jobs.append({"variant": "c" if s % 2 else "py", "part": "random", "shard": s, "nshards": nr, "params": {"n": 400000 if thorough else 10000}})
+    nt = 8 if thorough else 2
+    for s in range(nt):
+        jobs.append({"variant": "c" if s % 2 else "py", "part": "shared", "shard": s, "nshards": nt, "params": {"n": 60000 if thorough else 6000, "threads": 4 + s % 3}})
     return jobs
 
 
@@ -392,6 +397,26 @@ def run(ctx):
         ctx.sample({"regime": "requote", "s": "http://h/p?k=%2b&%2b=v"})
         ctx.sample({"regime": "decoded", "entry": "with_query_dict", "text": "a&b=c+d;e %"})
         return
+    if ctx.part == "shared":
+        # the quoters are module-level objects shared by every thread: the same byte-preservation monitors, with several
+        # threads parsing and building (distinct, escape-rich) URLs at the same moment
+        def body(rec, tid):
+            tg_ = TextGen(rec.rng, surrogates=False)
+            ug_ = URLGen(rec.rng, tg_)
+            for i in range(ctx.params["n"]):
+                if i % 2:
+                    s_ = ug_.url()[0]
+                else:
+                    s_ = f"http://u%3a{tid}:p%40{i}@h/t{tid}-{i}/%41%2Fb%c3%a9/x%FFy" + "%2f%7E" * (1 + i % 9) + f"?k=%2b%26&%c3%a9={i}%3d#%7e%25{i}"
+                check_ctor(rec, s_, ("shared-ctor", tid, i % 9))
+                if i % 4 == 0:
+                    t_ = tg_.text(5, 1)[0]
+                    check_decoded(rec, rec.rng.choice(DECODED_ENTRIES), t_, ("shared-decoded", text_classes(t_)))
+            rec.count("shared_thread_runs")
+
+        ctx.threaded(ctx.params["threads"], body)
+        ctx.sample({"regime": "requote", "s": "http://u%3a0:p%401@h/t0-1/%41%2Fb%c3%a9/x%FFy%2f%7E?k=%2b%26#%7e%25"})
+        return
     tg = TextGen(ctx.rng, surrogates=False)
     ug = URLGen(ctx.rng, tg)
     r = ctx.rng
@@ -413,6 +438,8 @@ def run(ctx):
 def finalize(merged, results, tier):
     unmet = []
     c = merged["counters"]
+    if c.get("shared_thread_runs", 0) == 0:
+        unmet.append("the shared (multi-thread) phase did not run")
     for k in ("ctor_checked", "decoded_checked", "join_checked"):
         if c.get(k, 0) == 0:
             unmet.append(k + " == 0: monitor not reached")
